@@ -174,9 +174,8 @@ Definition do_validate (ch : chan) (n : N) (c : content) (sig_ok pol_ok : bool) 
        | Some false => (ch, refused)
        | Some true =>
            if negb sig_ok then (ch, refused)
-           else
-             let e' := if n =? next_h e then set_nxt_h e (Some c) else e in
-             (persist e', ok0)
+           else if n =? next_h e then (persist (set_nxt_h e (Some c)), ok0)
+           else (ch, ok0)       (* nothing changed: nothing is written *)
        end.
 
 (** revoke_previous_holder_commitment *)
@@ -419,7 +418,8 @@ Definition step0 (s : slot) (o : op) : slot * outp :=
       end
   | HRevoke n py =>
       on_ready s (fun ch =>
-        tbind (add_p prof n 1) (ch, aborted) (fun n1 =>
+        (* the handler computes n + 1 with a checked add: out of range is refused *)
+        tbind (match add_checked n 1 with Some v => Val v | None => Trap end) (ch, refused) (fun n1 =>
         let '(ch', o) := do_revoke ch n1 py in
         match st o, o_secret o with
         | Ok, None => (ch', refused)      (* "no old secret": replied as an error *)
@@ -527,3 +527,19 @@ Definition do_revoke_old (warn : tag -> bool) (prof : profile) (ch : chan) (n : 
 Definition secret_res_old_release (e : estate) (n : N) : option N :=
   if next_h e <? add_wrap n 2 then None
   else Some (secret_number (sub_wrap INITIAL_COMMITMENT_NUMBER n)).
+
+(** validate_counterparty_revocation as it was before the repair: the secret is stored before
+    the counter guards can refuse *)
+Definition do_revocation_old (warn : tag -> bool) (ch : chan) (r : N) (pt_of_secret : point)
+  (secret : N) (chains : bool) : chan * outp :=
+  let e := mem ch in
+  if negb (revocation_checks warn e r (r + 1) (r + 2) pt_of_secret) then (ch, refused)
+  else if negb chains then (ch, refused)
+  else
+    let e1 := mkE (next_h e) (cur_h e) (nxt_h e) (closed e) (next_c e) (next_r e) (cur_pt e)
+                  (prev_pt e) (cur_c e) (prev_c e) (secrets e ++ [(r, secret)]) in
+    if negb (cp_revoke_guard warn e1 (r + 1)) then (keep ch e1, refused)
+    else match set_cp_revoke e1 (r + 1) (secrets e1) with
+         | None => (keep ch e1, aborted)
+         | Some e' => (persist e', ok0)
+         end.
